@@ -95,7 +95,7 @@ theorem parallelize_indexwise (t : Nat) (ht : 0 < t) (v : List α) (f : List α 
 
 section
 set_option linter.unusedSectionVars false
-variable {F : Type} [Mul F] [OfNat F 1] [OfNat F 0]
+variable {F : Type} [Mul F] [One F] [Zero F]
 
 theorem fillPowers_eq (ω : F) : ∀ (ch : List F) (start : Nat),
     fillPowers ω (powN ω start) ch = ch.mapIdx (fun x _ => powN ω (start + x))
